@@ -183,9 +183,40 @@ def n_round(a, decimals=0, out=None):
     return _np.round(a, decimals)
 
 
-numpy_shim = Shim(_np, zeros=n_zeros, zeros_like=n_zeros_like, asarray=n_asarray, array=n_array, round=n_round, around=n_round)
+def _elementwise(real, scalar_fn):
+    """A numpy function without an object loop (copysign, sign, ...): element-wise on object arrays / proxies, the real
+    function otherwise."""
+    def f(*args, **k):
+        if not any(_has_proxy(a) for a in args):
+            return real(*args, **k)
+        arrs = [_np.asarray(a, dtype=object) if isinstance(a, (list, tuple, _np.ndarray)) else a for a in args]
+        shapes = [a.shape for a in arrs if isinstance(a, _np.ndarray) and a.ndim > 0]
+        if not shapes:
+            return scalar_fn(*[a.item() if isinstance(a, _np.ndarray) else a for a in arrs])
+        out = _np.empty(shapes[0], dtype=object)
+        for idx in _np.ndindex(*shapes[0]):
+            out[idx] = scalar_fn(*[a[idx] if isinstance(a, _np.ndarray) and a.ndim > 0 else a for a in arrs])
+        return out
+    return f
+
+
+def _s_copysign(a, b):
+    # sign bit of b (a proxy is a real: -0.0 does not exist there; concrete -0.0 is respected)
+    if isinstance(b, SNum):
+        return ops.ite(b >= 0, abs(a), -abs(a))
+    return abs(a) if math.copysign(1.0, b) > 0 else -abs(a)
+
+
+def _s_sign(a):
+    return ops.ite(a > 0, 1.0, ops.ite(a < 0, -1.0, 0.0)) if isinstance(a, SNum) else _np.sign(a)
+
+
+n_copysign = _elementwise(_np.copysign, _s_copysign)
+n_sign = _elementwise(_np.sign, _s_sign)
+
+numpy_shim = Shim(_np, copysign=n_copysign, sign=n_sign, zeros=n_zeros, zeros_like=n_zeros_like, asarray=n_asarray, array=n_array, round=n_round, around=n_round)
 # for modules that also build integer / index matrices with np.zeros: only the conversions that must let proxies through
-numpy_shim_light = Shim(_np, asarray=n_asarray, array=n_array, round=n_round, around=n_round)
+numpy_shim_light = Shim(_np, copysign=n_copysign, sign=n_sign, asarray=n_asarray, array=n_array, round=n_round, around=n_round)
 
 
 # ---- time -----------------------------------------------------------------------------
